@@ -170,7 +170,8 @@ func (s *Server) handle(origCtx context.Context, handler handler, method string,
 	if err != nil {
 		if _, ok := err.(thrift.TProtocolException); ok {
 			// We failed to parse the Thrift generated code, so convert the error to bad request.
-			err = tchannel.NewSystemError(tchannel.ErrCodeBadRequest, err.Error())
+			// The parse error text must not be interpreted as a format string.
+			err = tchannel.NewSystemError(tchannel.ErrCodeBadRequest, "%s", err.Error())
 		}
 
 		reader.Close()
